@@ -327,8 +327,13 @@ static bool call_setter(const Field& f, PDU& o, const Bytes& v, std::string& wha
     try { if (f.bytes) f.setb(o, v); else f.set(o, from_be(v)); return true; }
     catch (std::exception& e) { what = e.what(); return false; }
 }
-static void randomise(const Class& c, PDU& o, vh::Rng& r) {
-    for (size_t i = 0; i < c.fields.size(); ++i) { const Field& f = c.fields[i]; if (f.fixed || f.carrier == 0) continue; std::string w; call_setter(f, o, rand_value(f, r), w); }
+// seeded random prior state: the field under test is written FIRST and all other fields afterwards in a random order, so
+// that bits a faulty setter of the field under test would clobber are live (not already flattened by that same setter)
+static void randomise(const Class& c, PDU& o, vh::Rng& r, const Field* first) {
+    std::string w; if (first) call_setter(*first, o, rand_value(*first, r), w);
+    std::vector<size_t> ord; for (size_t i = 0; i < c.fields.size(); ++i) ord.push_back(i);
+    for (size_t i = ord.size(); i > 1; --i) std::swap(ord[i - 1], ord[r.below((uint32_t)i)]);
+    for (size_t k = 0; k < ord.size(); ++k) { const Field& f = c.fields[ord[k]]; if (f.fixed || f.carrier == 0 || &f == first) continue; call_setter(f, o, rand_value(f, r), w); }
 }
 // the class's own header bytes: the object is cloned (serialisation rewrites derived members of the object it runs on),
 // given an opaque payload where the class would otherwise force its next-protocol tag, and serialised as the outermost layer
@@ -365,7 +370,7 @@ static void scenario(const vh::Json& sc, vh::Out& out, vh::Rng& rng, const vh::A
         std::vector<uint64_t> probes; probes.push_back(lim); probes.push_back(lim + 1); probes.push_back(cm);
         if (f->carrier > f->w + 1) { probes.push_back((1ull << (f->carrier - 1)) & cm); probes.push_back(lim | (rng.next() & (lim - 1))); probes.push_back((rng.next() & cm) | lim); probes.push_back(cm & ~(lim - 1)); }
         for (size_t i = 0; i < probes.size(); ++i) {
-            std::unique_ptr<PDU> o(c->make()); randomise(*c, *o, rng);
+            std::unique_ptr<PDU> o(c->make()); randomise(*c, *o, rng, f);
             Bytes v = be_bytes(probes[i] & cm, cb), before = get_value(*f, *o); std::string what;
             bool ok = call_setter(*f, *o, v, what);
             vh::W w; w.O().kv("e", "probe").kbytes("v", v).kv("rej", !ok).kbytes("before", before).kbytes("after", get_value(*f, *o)).E(); out.event(w); }
@@ -380,7 +385,7 @@ static void scenario(const vh::Json& sc, vh::Out& out, vh::Rng& rng, const vh::A
     out.begin(cfg);
     std::unique_ptr<PDU> o; std::vector<Bytes> gb, ga; Bytes hb, ha; long logged = 0; size_t phase = rng.below((uint32_t)sample);
     for (size_t i = 0; i < vals.size(); ++i) {
-        if (i % 8 == 0 || !o) { o.reset(c->make()); randomise(*c, *o, rng); gb.clear(); for (size_t k = 0; k < c->fields.size(); ++k) gb.push_back(get_value(c->fields[k], *o));
+        if (i % 4 == 0 || !o) { o.reset(c->make()); randomise(*c, *o, rng, f); gb.clear(); for (size_t k = 0; k < c->fields.size(); ++k) gb.push_back(get_value(c->fields[k], *o));
             std::string err; hb = header_bytes(*c, *o, hdr, err); }
         std::string what, err; bool ok = call_setter(*f, *o, vals[i], what);
         ga.clear(); for (size_t k = 0; k < c->fields.size(); ++k) ga.push_back(get_value(c->fields[k], *o));
